@@ -191,6 +191,26 @@ pub fn run(ctx: &mut Ctx) {
             }
         }
     }
+    // --- long runs of one byte between tokens -------------------------------------------------------------
+    if ctx.shard == 0 {
+        let bytes: Vec<u8> = vec![b' ', b'\t', b'\n', b'\r', b'a', b'1', b'_', b'-', b'>', b'=', b'!', b'"', b'@', b'^', 0x0c, 0x00];
+        let lens: Vec<usize> = if ctx.quick() { vec![300, 5_000, 100_000] } else { vec![100, 450, 1_000, 5_000, 20_000, 100_000, 1_000_000] };
+        let mut idx = 0u64;
+        for b in &bytes {
+            for len in &lens {
+                let i = idx;
+                idx += 1;
+                if !ctx.begin("ladder-runs", i) {
+                    continue;
+                }
+                let run: String = String::from_utf8_lossy(&vec![*b; *len]).to_string();
+                ctx.eval(&format!("ladder-runs:len{len}"), crate::prng::mix(&[*b as u64, *len as u64, 9]), true);
+                for doc in [format!("a{run}and b"), format!("{run}a"), format!("a =={run}1"), format!("a->{run}b"), format!("(a{run})")] {
+                    let _ = parse_monitored(ctx, doc.as_bytes(), "ladder-runs");
+                }
+            }
+        }
+    }
     // --- valid filters: the text, its prefixes, its mutants; evaluation of whatever parses ----------
     let n = ctx.n(3_000, 80_000);
     for i in 0..n {
